@@ -126,7 +126,7 @@ func (m *Machine) numCmpConst(n Num, c float64, op string) (Tri, string) {
 // numCmpNum: relation between two atoms: a 3-way order fact, decided once per pair.
 // Integral decides (forking once per atom) whether a symbolic number is an integer.
 func (m *Machine) Integral(a *Atom) bool {
-	if a.Kind == "PosInt" {
+	if a.Kind == "PosInt" || a.Facts["integral"] == "yes" {
 		return true
 	}
 	return m.Decide(fmt.Sprintf("integral:%d", a.ID), 2, "integrality of "+a.String()) == 0
